@@ -24,6 +24,11 @@ class Unsupported(Exception):
     pass
 
 
+class _UnwindExceeded(Exception):
+    def __init__(self, fr):
+        self.fr = fr
+
+
 # ---------------------------------------------------------------- values
 class Int:
     __slots__ = ("ty", "t")
@@ -336,6 +341,7 @@ class State:
         self.steps = 0
         self.nfid = 0
         self.trace = []
+        self.visits = {}
 
     def clone(self):
         s = State()
@@ -348,6 +354,7 @@ class State:
         s.steps = self.steps
         s.nfid = self.nfid
         s.trace = list(self.trace)
+        s.visits = dict(self.visits)
         return s
 
 
@@ -379,12 +386,13 @@ PANIC_FNS = ("core::panicking::", "std::rt::panic_fmt", "core::slice::index::sli
 
 
 class Executor:
-    def __init__(self, program, max_steps=200000, feas_timeout_ms=1500, max_paths=4000):
+    def __init__(self, program, max_steps=200000, feas_timeout_ms=1500, max_paths=4000, unwind=None):
         self.p = program
         self.max_steps = max_steps
         self.feas_timeout_ms = feas_timeout_ms
         self.max_paths = max_paths
         self.obligations = []
+        self.unwind = unwind    # max visits of one block per frame on a path (None = unbounded)
         self.cur = None         # state being executed (fresh-variable axioms are attached to it)
         self.fresh = 0
         self.nforks = 0
@@ -434,7 +442,12 @@ class Executor:
             while fr.idx < len(stmts):
                 self._stmt(st, fr, stmts[fr.idx])
                 fr.idx += 1
-            r = self._term(st, fr, term, work)
+            try:
+                r = self._term(st, fr, term, work)
+            except _UnwindExceeded as e:
+                # unwinding assertion: reaching the bound again must be impossible
+                self._oblige(st, "unwind", "loop unwinding bound %d exceeded" % self.unwind, z3.BoolVal(True), e.fr)
+                return None
             if r == "dead":
                 return None
             if isinstance(r, PathResult):
@@ -442,6 +455,12 @@ class Executor:
 
     def _goto(self, fr, bb):
         fr.block, fr.idx = bb, 0
+        if self.unwind is not None and self.cur is not None:
+            key = (fr.fid, bb)
+            n = self.cur.visits.get(key, 0) + 1
+            self.cur.visits[key] = n
+            if n > self.unwind:
+                raise _UnwindExceeded(fr)
 
     # ---- statements
     def _stmt(self, st, fr, s):
@@ -575,7 +594,15 @@ class Executor:
         for c, bb in live[1:]:
             s2 = st.clone()
             s2.pc.append(c)
-            self._goto(s2.frames[-1], bb)
+            old = self.cur
+            self.cur = s2
+            try:
+                self._goto(s2.frames[-1], bb)
+            except _UnwindExceeded as e:
+                self._oblige(s2, "unwind", "loop unwinding bound %d exceeded" % self.unwind, z3.BoolVal(True), e.fr)
+                continue
+            finally:
+                self.cur = old
             work.append(s2)
             self.nforks += 1
         c, bb = live[0]
